@@ -477,6 +477,10 @@ impl Worker {
             return;
         }
 
+        // The rollback point for a failed write is the write offset of the segment that is
+        // actually written to: the rollover above may just have replaced it
+        let write_offset = writer_set.writer.write_offset();
+
         #[cfg(sierradb_verif)]
         let verif_txn = crate::verif::uuid_parts(&transaction_id);
         let bytes_since_sync = writer_set.bytes_since_sync;
